@@ -290,13 +290,13 @@ Section Proofs.
   Qed.
 
   (* Sufficiency, unconditionally: whatever Estimate returns without error succeeds. *)
-  Theorem estimate_succeeds fuel p r :
-    fst (estimate_fuel fuel p) = EstOk r -> ok r = true.
+  Theorem estimate_succeeds lg fuel p r :
+    fst (estimate_fuel lg fuel p) = EstOk r -> ok r = true.
   Proof.
     unfold Estimator.estimate_fuel. intros H.
     destruct (initial_hi p) as [e|hi] eqn:Hi; [cbn [fst] in H; subst e|].
     - destruct (initial_hi_err _ _ Hi); discriminate.
-    - destruct (plain_transfer p).
+    - destruct (shortcut_applies lg p hi).
       + destruct (exec TxGas) eqn:E; try (eapply estimate_from_succeeds; exact H).
         cbn [fst] in H. injection H as <-. eapply ok_of_exec; exact E.
       + eapply estimate_from_succeeds; exact H.
@@ -316,37 +316,62 @@ Section Proofs.
       + apply search_le in H; auto.
   Qed.
 
-  (* The result is at most the initial hi — except through the plain-transfer
-     shortcut, which answers 21000 without looking at hi. *)
-  Theorem estimate_le_hi fuel p hi r :
-    wf_params p -> initial_hi p = inr hi -> fst (estimate_fuel fuel p) = EstOk r ->
-    r <= hi \/ (plain_transfer p = true /\ r = TxGas /\ ok TxGas = true).
+  (* The shortcut only fires when params.TxGas <= hi (unless the legacy flag is set) *)
+  Lemma shortcut_le lg p hi :
+    lg_ignore_hi lg = false -> shortcut_applies lg p hi = true -> TxGas <= hi.
+  Proof.
+    unfold shortcut_applies. intros ->. cbn [orb]. intros H.
+    destruct (TxGas <=? hi) eqn:C; [lia|].
+    rewrite Bool.andb_false_r in H. discriminate.
+  Qed.
+
+  Lemma shortcut_not_amsterdam lg p hi :
+    lg_after_amsterdam lg = false -> shortcut_applies lg p hi = true -> p_is_amsterdam p = false.
+  Proof.
+    unfold shortcut_applies. intros ->. cbn [orb]. intros H.
+    destruct (p_is_amsterdam p); auto.
+    cbn [negb] in H. rewrite Bool.andb_false_r in H. discriminate.
+  Qed.
+
+  (* for any setting of the legacy flags: at most hi, or the shortcut's 21000 *)
+  Theorem estimate_le_hi_legacy lg fuel p hi r :
+    wf_params p -> initial_hi p = inr hi -> fst (estimate_fuel lg fuel p) = EstOk r ->
+    r <= hi \/ (shortcut_applies lg p hi = true /\ r = TxGas /\ ok TxGas = true).
   Proof.
     intros Hwf Hi H. destruct (initial_hi_caps p hi Hwf Hi) as (Hlt & _).
     unfold Estimator.estimate_fuel in H. rewrite Hi in H.
-    destruct (plain_transfer p).
+    destruct (shortcut_applies lg p hi).
     - destruct (exec TxGas) eqn:E; try solve [left; eapply estimate_from_le; [exact Hlt | exact H]].
       right. cbn [fst] in H. injection H as <-. repeat split. eapply ok_of_exec; exact E.
     - left; eapply estimate_from_le; [exact Hlt | exact H].
   Qed.
 
-  (* Under the guard that the shortcut's 21000 is itself within hi (i.e. every cap is at
-     least params.TxGas, or the call is not a plain transfer), the estimate respects the
-     funds, the gas cap, the Osaka per-transaction cap and the requested/header limit. *)
-  Theorem estimate_le_caps fuel p hi r :
+  (* The result is at most the initial hi (the shortcut compares 21000 with hi). *)
+  Theorem estimate_le_hi lg fuel p hi r :
+    lg_ignore_hi lg = false ->
+    wf_params p -> initial_hi p = inr hi -> fst (estimate_fuel lg fuel p) = EstOk r ->
+    r <= hi.
+  Proof.
+    intros Hlg Hwf Hi H.
+    destruct (estimate_le_hi_legacy lg fuel p hi r Hwf Hi H) as [|(Hs & -> & _)]; auto.
+    eapply shortcut_le; eauto.
+  Qed.
+
+  (* The estimate respects the funds, the gas cap, the Osaka per-transaction cap and the
+     requested/header limit. *)
+  Theorem estimate_le_caps lg fuel p hi r :
+    lg_ignore_hi lg = false ->
     wf_params p -> initial_hi p = inr hi ->
-    (plain_transfer p = true -> TxGas <= hi) ->
-    fst (estimate_fuel fuel p) = EstOk r ->
+    fst (estimate_fuel lg fuel p) = EstOk r ->
     r <= hi /\
     (p_gas_cap p <> 0 -> r <= p_gas_cap p) /\
     (p_is_osaka p = true -> p_is_amsterdam p = false -> r <= MaxTxGas) /\
     (fee_cap p <> 0 -> funds_needed p r <= p_balance p) /\
     r <= N.max (p_header_gas p) (p_call_gas p).
   Proof.
-    intros Hwf Hi Hg H.
+    intros Hlg Hwf Hi H.
     destruct (initial_hi_caps p hi Hwf Hi) as (Hlt & Hc & Ho & Hf & Hm).
-    assert (Hr : r <= hi).
-    { destruct (estimate_le_hi fuel p hi r Hwf Hi H) as [|(Hp & -> & _)]; auto. }
+    assert (Hr : r <= hi) by (eapply estimate_le_hi; eauto).
     split; [exact Hr|]. repeat split.
     - intros X. specialize (Hc X). lia.
     - intros X Y. specialize (Ho X Y). lia.
@@ -359,15 +384,16 @@ Section Proofs.
   Lemma lo_of_used_le u : 1 <= u -> lo_of_used u < u.
   Proof. intros H. unf64. lia. Qed.
 
-  Theorem estimate_minimal fuel p hi r :
+  Theorem estimate_minimal lg fuel p hi r :
+    lg_after_amsterdam lg = false ->
     (forall h l, er_exit h l = false) -> monotone ->
-    (forall g, g < TxGas -> ok g = false) ->
+    (p_is_amsterdam p = false -> forall g, g < TxGas -> ok g = false) ->
     wf_params p -> initial_hi p = inr hi ->
     (forall u m, exec hi = ExOk u m -> 1 <= u /\ forall g, g < u -> ok g = false) ->
-    fst (estimate_fuel fuel p) = EstOk r ->
+    fst (estimate_fuel lg fuel p) = EstOk r ->
     forall g, g < r -> ok g = false.
   Proof.
-    intros Her Hmono Hintr Hwf Hi Hused H.
+    intros Hlg Her Hmono Hintr Hwf Hi Hused H.
     destruct (initial_hi_caps p hi Hwf Hi) as (Hlt & _).
     assert (Hfrom : forall tr, fst (estimate_from fuel hi tr) = EstOk r -> forall g, g < r -> ok g = false).
     { clear H. intros tr H. unfold Estimator.estimate_from in H.
@@ -388,9 +414,10 @@ Section Proofs.
         + eapply search_minimal; try exact H; eauto; [lia | eapply ok_of_exec; exact E2].
       - eapply search_minimal; try exact H; eauto. }
     unfold Estimator.estimate_fuel in H. rewrite Hi in H.
-    destruct (plain_transfer p).
+    destruct (shortcut_applies lg p hi) eqn:Hs.
     - destruct (exec TxGas) eqn:E; try (eapply Hfrom; exact H).
-      cbn [fst] in H. injection H as <-. exact Hintr.
+      cbn [fst] in H. injection H as <-. apply Hintr.
+      eapply shortcut_not_amsterdam; eauto.
     - eapply Hfrom; exact H.
   Qed.
 
@@ -428,7 +455,7 @@ Section Proofs.
     destruct (initial_hi p) as [e|hi] eqn:Hi.
     - cbn [fst]. intros ->. destruct (initial_hi_err _ _ Hi); discriminate.
     - specialize (Hg hi eq_refl).
-      destruct (plain_transfer p).
+      destruct (shortcut_applies current p hi).
       + destruct (exec TxGas); try (apply estimate_from_terminates; exact Hg).
         cbn [fst]. discriminate.
       + apply estimate_from_terminates; exact Hg.
@@ -459,7 +486,7 @@ Section Proofs.
     { apply estimate_terminates. intros h Hh. rewrite Hi in Hh. injection Hh as <-. exact Hg. }
     assert (exists r, fst (estimate exec er_exit p) = EstOk r) as (r & Hr).
     { unfold estimate, Estimator.estimate_fuel in *. rewrite Hi in *.
-      destruct (plain_transfer p).
+      destruct (shortcut_applies current p hi).
       - destruct (exec TxGas) eqn:E; try (destruct (estimate_from_shape search_fuel hi [TxGas] Hok Hnb) as [?|Hc];
           [assumption | contradiction]).
         cbn [fst]. eauto.
@@ -468,11 +495,12 @@ Section Proofs.
   Qed.
 End Proofs.
 
-(* ================= the two statements that are FALSE of the faithful model =========== *)
+(* ================= statements that are FALSE of (former versions of) the faithful model == *)
 
-(* (a) "the estimate never exceeds the gas cap" fails through the plain-transfer shortcut,
-   which probes and answers params.TxGas without comparing it with hi: gasCap = 10000,
-   a plain transfer that succeeds with 21000 gas -> 21000 > gasCap. *)
+(* (a) FORMER CODE ONLY (before /repo 10bd791e6e; legacy flag lg_ignore_hi): "the estimate never
+   exceeds the gas cap" failed through the plain-transfer shortcut, which probed and answered
+   params.TxGas without comparing it with hi: gasCap = 10000, a plain transfer that succeeds
+   with 21000 gas -> 21000 > gasCap.  For the current code see estimate_le_caps. *)
 Definition refute_cap_params : params :=
   {| p_header_gas := 30000000; p_call_gas := 0; p_is_cancun := true; p_is_osaka := true;
      p_is_amsterdam := false; p_gas_fee_cap := Some 0; p_gas_price := Some 0;
@@ -481,19 +509,51 @@ Definition refute_cap_params : params :=
 Definition refute_cap_exec (g : N) : exec_result :=
   if g <? 21000 then ExFailNil else ExOk 21000 21000.
 
-Lemma estimate_le_gascap_refuted :
+Lemma legacy_estimate_le_gascap_refuted :
   exists exec p r, wf_params p /\
-    fst (estimate exec (fun _ _ => false) p) = EstOk r /\
-    p_gas_cap p <> 0 /\ p_gas_cap p < r /\ initial_hi p = inr (p_gas_cap p).
+    fst (estimate_fuel exec (fun _ _ => false)
+           {| lg_ignore_hi := true; lg_after_amsterdam := false |} search_fuel p) = EstOk r /\
+    p_gas_cap p <> 0 /\ p_gas_cap p < r /\ initial_hi p = inr (p_gas_cap p) /\
+    (* the current code answers "gas required exceeds allowance (10000)" on the same input *)
+    fst (estimate exec (fun _ _ => false) p) = EstErrAllowance 10000.
 Proof.
   exists refute_cap_exec, refute_cap_params, 21000.
   split; [|vm_compute; repeat split; discriminate].
   unfold wf_params; vm_compute; repeat split.
 Qed.
 
-(* (b) "a logarithmic number of probes suffices" fails when gas limits at or above 2^63
-   are admitted: l.181 [mid > lo*2] wraps, the clamp then moves lo DOWN, and the search
-   oscillates (it ends only after about 2^62 probes).  Oracle: a program that succeeds
+(* (a') FORMER CODE ONLY (before /repo 2d92053e8d; legacy flag lg_after_amsterdam): under
+   Amsterdam rules (EIP-2780) a plain transfer needs less than 21000 gas, the shortcut
+   nevertheless answered 21000: not minimal although the program is monotone and the error
+   ratio is 0.  Oracle: succeeds iff gas >= 15000, uses 15000. *)
+Definition refute_amst_params : params :=
+  {| p_header_gas := 30000000; p_call_gas := 0; p_is_cancun := true; p_is_osaka := true;
+     p_is_amsterdam := true; p_gas_fee_cap := Some 0; p_gas_price := Some 0;
+     p_balance := 0; p_value := Some 0; p_nblobs := 0; p_blob_fee_cap := 0;
+     p_gas_cap := 0; p_data_len := 0; p_to_nil := false; p_code_size := 0 |}.
+Definition refute_amst_exec (g : N) : exec_result :=
+  if g <? 15000 then ExFailNil else ExOk 15000 15000.
+
+Lemma legacy_estimate_minimal_amsterdam_refuted :
+  exists exec p r, wf_params p /\ monotone exec /\
+    fst (estimate_fuel exec (fun _ _ => false)
+           {| lg_ignore_hi := false; lg_after_amsterdam := true |} search_fuel p) = EstOk r /\
+    succeeds exec (r - 1) = true /\
+    (* the current code finds the minimum on the same input *)
+    fst (estimate exec (fun _ _ => false) p) = EstOk 15000.
+Proof.
+  exists refute_amst_exec, refute_amst_params, 21000.
+  split; [unfold wf_params; vm_compute; repeat split|].
+  split.
+  { intros g g' Hle. unfold succeeds, refute_amst_exec.
+    destruct (g <? 15000) eqn:A; [discriminate|]. intros _.
+    destruct (g' <? 15000) eqn:A'; [lia|]. reflexivity. }
+  vm_compute. repeat split.
+Qed.
+
+(* (b) CURRENT CODE: "a logarithmic number of probes suffices" fails when gas limits at or
+   above 2^63 are admitted: l.182 [mid > lo*2] wraps, the clamp then moves lo DOWN, and the
+   search oscillates (it ends only after about 2^62 probes).  Oracle: a program that succeeds
    iff gas >= 2^64-1 (e.g. a GAS-opcode check), used = 21020. *)
 Definition refute_term_params : params :=
   {| p_header_gas := 30000000; p_call_gas := 18446744073709551615; p_is_cancun := true;
@@ -509,7 +569,7 @@ Lemma estimate_terminates_unguarded_refuted :
   exists exec p, wf_params p /\ monotone exec /\
     (forall u m, exec (p_call_gas p) = ExOk u m -> 2 <= u /\ u < W64 /\ m + CallStipend < 2 ^ 58) /\
     initial_hi p = inr (p_call_gas p) /\
-    fst (estimate_fuel exec (fun _ _ => false) 1000 p) = EstOutOfFuel.
+    fst (estimate_fuel exec (fun _ _ => false) current 1000 p) = EstOutOfFuel.
 Proof.
   exists refute_term_exec, refute_term_params.
   split; [unfold wf_params; vm_compute; repeat split|].
